@@ -350,6 +350,18 @@ func (g *gen) collectionOf(ctx string, depth int, inSet bool, forceItems int) (s
 	}
 	multiline := n > 0 && g.t.Choose(2) == 1
 	childInSet := inSet || ctx == "Set"
+	// The grammar does not tie the kind of the items to the context: a list of
+	// associations is a sentence under every context (the value collections
+	// then hold associations, a repeated key keeping its first position and
+	// its last value), and both empty forms are sentences under every context.
+	ctxAssoc := assoc
+	if !assoc && g.t.Choose(6) == 5 {
+		assoc = true
+	}
+	emptyColon := assoc
+	if n == 0 && g.t.Choose(4) == 3 {
+		emptyColon = !ctxAssoc
+	}
 	var items []string
 	var kids []*node
 	for i := 0; i < n; i++ {
@@ -384,7 +396,7 @@ func (g *gen) collectionOf(ctx string, depth int, inSet bool, forceItems int) (s
 	var b strings.Builder
 	b.WriteString("[")
 	switch {
-	case n == 0 && assoc:
+	case n == 0 && emptyColon:
 		b.WriteString(":")
 		g.tokens++
 	case n == 0:
@@ -413,38 +425,7 @@ func (g *gen) collectionOf(ctx string, depth int, inSet bool, forceItems int) (s
 	}
 	b.WriteString("](" + ctx + ")")
 	g.tokens += 5
-	// meaning
-	switch ctx {
-	case "Catalog", "Map":
-		// first position, last value per key
-		for _, k := range kids {
-			found := false
-			for _, e := range want.Kids {
-				if nodeEqual(e.Kids[0], k.Kids[0]) {
-					e.Kids[1] = k.Kids[1]
-					found = true
-					break
-				}
-			}
-			if !found {
-				want.Kids = append(want.Kids, &node{Kind: "assoc", Kids: []*node{k.Kids[0], k.Kids[1]}})
-			}
-		}
-	case "Set":
-		for _, k := range kids {
-			dup := false
-			for _, e := range want.Kids {
-				if nodeEqual(e, k) {
-					dup = true
-				}
-			}
-			if !dup {
-				want.Kids = append(want.Kids, k)
-			}
-		}
-	default:
-		want.Kids = kids
-	}
+	want.Kids = meaningOf(ctx, assoc, kids)
 	return b.String(), want
 }
 
@@ -546,34 +527,122 @@ func systematicSentence(idx int) sentence {
 		b.WriteString("\n")
 	}
 	want := &node{Kind: ctx}
-	switch ctx {
-	case "Catalog", "Map":
+	want.Kids = meaningOf(ctx, assoc, kids)
+	return sentence{Text: b.String(), Want: want, Tokens: 0}
+}
+
+// meaningOf is the denotation of a list of items under a context: associations
+// keep, per key, the first position and the last value (whatever the context);
+// a Set de-duplicates its members (and orders them: compared as a set, the
+// order being checked against the collator when the result is read).
+func meaningOf(ctx string, assocItems bool, kids []*node) []*node {
+	var out []*node
+	if assocItems {
 		for _, k := range kids {
 			found := false
-			for _, e := range want.Kids {
+			for _, e := range out {
 				if nodeEqual(e.Kids[0], k.Kids[0]) {
 					e.Kids[1] = k.Kids[1]
 					found = true
+					break
 				}
 			}
 			if !found {
-				want.Kids = append(want.Kids, &node{Kind: "assoc", Kids: []*node{k.Kids[0], k.Kids[1]}})
+				out = append(out, &node{Kind: "assoc", Kids: []*node{k.Kids[0], k.Kids[1]}})
 			}
 		}
-	case "Set":
+		kids = out
+		out = nil
+	}
+	if ctx == "Set" {
 		for _, k := range kids {
 			dup := false
-			for _, e := range want.Kids {
+			for _, e := range out {
 				if nodeEqual(e, k) {
 					dup = true
 				}
 			}
 			if !dup {
-				want.Kids = append(want.Kids, k)
+				out = append(out, k)
 			}
 		}
-	default:
-		want.Kids = kids
+		return out
 	}
-	return sentence{Text: b.String(), Want: want, Tokens: 0}
+	return kids
+}
+
+// assocSentence enumerates association lists under EVERY context: context x
+// layout (inline, multi-line) x rendering x pattern (one item; two keys; a
+// repeated key first/last; only one key repeated; the two empty forms).
+const assocPatterns = 7
+
+func assocSystematicCount() int { return len(contexts) * 2 * 2 * assocPatterns }
+
+func assocSentence(idx int) sentence {
+	style := idx % 2
+	idx /= 2
+	multi := idx%2 == 1
+	idx /= 2
+	pat := idx % assocPatterns
+	idx /= assocPatterns
+	ctx := contexts[idx%len(contexts)]
+	ka, kb := litPool["string"][1], litPool["string"][2]
+	v := func(i int) literal { return litPool["integer"][i%len(litPool["integer"])] }
+	type kv struct{ k, v literal }
+	var items []kv
+	empty := ""
+	switch pat {
+	case 0:
+		items = []kv{{ka, v(1)}}
+	case 1:
+		items = []kv{{ka, v(1)}, {kb, v(2)}}
+	case 2:
+		items = []kv{{ka, v(1)}, {kb, v(2)}, {ka, v(3)}}
+	case 3:
+		items = []kv{{ka, v(1)}, {ka, v(2)}}
+	case 4:
+		items = []kv{{kb, v(1)}, {ka, v(2)}, {ka, v(3)}, {kb, v(4)}, {ka, v(5)}}
+	case 5:
+		empty = ":"
+	case 6:
+		empty = " "
+	}
+	sep := ":"
+	if style == 1 {
+		sep = ": "
+	}
+	var texts []string
+	var kids []*node
+	for _, it := range items {
+		texts = append(texts, it.k.Text+sep+it.v.Text)
+		kids = append(kids, &node{Kind: "assoc", Kids: []*node{it.k.Val, it.v.Val}})
+	}
+	var b strings.Builder
+	b.WriteString("[")
+	switch {
+	case len(items) == 0:
+		b.WriteString(empty)
+	case multi:
+		for _, t := range texts {
+			b.WriteString("\n")
+			if style == 1 {
+				b.WriteString("    ")
+			}
+			b.WriteString(t)
+		}
+		b.WriteString("\n")
+	default:
+		js := ","
+		if style == 1 {
+			js = ", "
+		}
+		b.WriteString(strings.Join(texts, js))
+	}
+	b.WriteString("](" + ctx + ")")
+	if style == 1 {
+		b.WriteString("\n")
+	}
+	want := &node{Kind: ctx}
+	want.Kids = meaningOf(ctx, len(items) > 0, kids)
+	return sentence{Text: b.String(), Want: want}
 }
